@@ -12,6 +12,7 @@ from pyvc import dsl, extract, solve, sx, externals
 REPO = os.environ.get("CORANKCO_REPO", "/repo")
 Z3_MS = int(os.environ.get("PYVC_Z3_MS", "10000"))
 CVC5_MS = int(os.environ.get("PYVC_CVC5_MS", "10000"))
+PRUNED_MS = int(os.environ.get("PYVC_PRUNED_MS", "6000"))     # budget of the first attempt (relevant hypotheses only)
 
 
 def load_registry():
@@ -207,11 +208,12 @@ def run_contracts(reg, contracts, lemmas, want_models=True):
                 jobs.append((solve.to_smt2(hyps, vc.goal), 3000, None, 0))
                 meta.append((c, vc, len(jobs) - 1))
                 continue
-            pruned, dropped = solve.prune_hyps(reg.specs, base_hyps, vc.goal)
+            extra = [nm for k, v in (getattr(c, "focus", None) or {}).items() if k in vc.name for nm in v]
+            pruned, dropped = solve.prune_hyps(reg.specs, base_hyps, vc.goal, extra)
             if dropped:
                 # first attempt from the relevant hypotheses only; the full set is tried if that does not succeed
                 hp = pruned + solve.spec_closure(eng, reg.specs, pruned + [vc.goal])
-                jobs.append((solve.to_smt2(hp, vc.goal), Z3_MS, None, 0))
+                jobs.append((solve.to_smt2(hp, vc.goal), min(Z3_MS, PRUNED_MS), None, 0))
                 retry.append((len(jobs) - 1, c, vc, base_hyps, eng, readback))
             else:
                 hyps = base_hyps + solve.spec_closure(eng, reg.specs, base_hyps + [vc.goal])
